@@ -1,9 +1,11 @@
 package main
 
 import (
+	"encoding/hex"
 	"fmt"
 	"regexp"
 	"regexp/syntax"
+	"strconv"
 	"strings"
 	"time"
 
@@ -11,7 +13,52 @@ import (
 	"github.com/coregx/coregex/nfa"
 )
 
-func init() { checks["C14"] = checkC14 }
+func init() {
+	checks["C14"] = checkC14
+	exampleReplayers["engine"] = replayEngineExample
+}
+
+// replayEngineExample re-runs a lazy-DFA witness (default capacity, prefilter off) against the Lean reference.
+func replayEngineExample(f Finding) bool {
+	p := f.Example["pattern"]
+	h, err := hex.DecodeString(strings.TrimPrefix(f.Example["haystack_hex"], "-"))
+	if err != nil {
+		return true
+	}
+	at, _ := strconv.Atoi(f.Example["at"])
+	n, err := nfa.NewDefaultCompiler().Compile(p)
+	if err != nil {
+		return true
+	}
+	d, err := lazy.CompileWithConfig(n, lazy.DefaultConfig().WithPrefilter(false))
+	if err != nil {
+		return true
+	}
+	c := d.NewCache()
+	dump := dumpNFA(n)
+	var got, req string
+	switch f.Example["op"] {
+	case "IsMatch":
+		got = guard(10*time.Second, func() string { return fmt.Sprint(d.IsMatch(c, h)) })
+		req = fmt.Sprintf("bt ismatch 0 %s %s", hexOf(h), dump)
+	default:
+		got = guard(10*time.Second, func() string { return fmt.Sprint(d.SearchAt(c, h, at)) })
+		req = fmt.Sprintf("bt search %d %s %s", at, hexOf(h), dump)
+	}
+	ans, err := RunLean([]string{req})
+	if err != nil {
+		return true
+	}
+	want := ans[0]
+	if f.Example["op"] != "IsMatch" {
+		if want == "nil" {
+			want = "-1"
+		} else {
+			want = want[strings.IndexByte(want, ',')+1:]
+		}
+	}
+	return got != want
+}
 
 // dumpNFA serialises an NFA through its exported accessors in the format Cx.Driver.parseNfa reads.
 func dumpNFA(n *nfa.NFA) string {
